@@ -770,14 +770,10 @@ func ruleOidValid(c *Ctx, r *Rep) {
 }
 
 func ruleYearRange(c *Ctx, r *Rep) {
-	calls := c.funcsCalling("time.ParseInLocation")
-	if len(calls) != 1 {
-		r.Undecided("anchor:validity-parser", "", sprintf("expected one function calling time.ParseInLocation, found %d", len(calls)))
+	fn := c.validityParser()
+	if fn == nil {
+		r.Undecided("anchor:validity-parser", "", "no unique function fills CertificateValidity.From and .Until")
 		return
-	}
-	var fn *ssa.Function
-	for f := range calls {
-		fn = f
 	}
 	idx := errResultIndex(fn.Signature)
 	nSucc := 0
